@@ -639,6 +639,8 @@ class Interp:
             return VInt(int(e["value"])), env, pc
         if t == "bool":
             return VBool(e["value"]), env, pc
+        if t == "bytes":
+            return VStr(bstr.lit(bytes(e["value"]))), env, pc
         raise Unsupported("literal " + t)
 
     def e_path(self, e, env, pc):
@@ -1235,6 +1237,11 @@ class Interp:
             env = dict(env)
             env[recv_ast["path"]] = VStr(bstr.concat(recv.e, as_bstr(args[0]), self.ob(pc)))
             return VUnit(), env, pc
+        if name in ("clone_from_slice", "copy_from_slice") and isinstance(recv, VStr):
+            src = as_bstr(args[0])
+            self.panic(z3.And(pc, src.n != recv.e.n), "%s: source and destination lengths differ (line %s)" % (name, e.get("line")))
+            _, env, pc = self.assign_to(strip_ref(recv_ast), VStr(src), env, pc)
+            return VUnit(), env, pc
         if name in ("extend_from_slice", "extend") and isinstance(recv, VStr):
             _, env, pc = self.assign_to(strip_ref(recv_ast), VStr(bstr.named(bstr.concat(recv.e, as_bstr(args[0]), self.ob(pc)), self.side, "ext")), env, pc)
             return VUnit(), env, pc
@@ -1317,7 +1324,9 @@ class Interp:
             exits.extend(brk)
             env, pc = {n: env_n.get(n, env[n]) for n in env}, pc_n
         else:
-            exits.append((pc, env))
+            # all modelled slots consumed: if the sequence is longer than modelled, the bound was too small
+            self.unwind(z3.And(pc, ugt(it.n, bv(len(it.items)))), "for loop at line %s needs more than %d iterations" % (e.get("line"), len(it.items)))
+            exits.append((z3.And(pc, ule(it.n, bv(len(it.items)))), env))
             pc = z3.BoolVal(False)
         out, pco = self.merge_states(exits, env)
         return VUnit(), out, pco
@@ -1373,10 +1382,20 @@ class Interp:
             hi, env, pc = self.eval(e["hi"], env, pc)
         if lo is not None and hi is not None and (cval(lo.e) is None or cval(hi.e) is None):
             if not e["inclusive"]:
+                if cval(lo.e) is not None:
+                    # `lo..n` with symbolic n: a bounded index vector; e_for records the unwinding obligation
+                    a = cval(lo.e)
+                    cnt = z3.If(uge(hi.e, bv(a)), hi.e - bv(a), bv(0))
+                    return VVec([VInt(a + i) for i in range(self.loop_bound)], cnt), env, pc
                 raise Unsupported("half-open range with symbolic bounds")
             return VStruct("RangeInclusive", {"start": lo, "end": hi}), env, pc
         if lo is None or hi is None:
             raise Unsupported("open range")
+        if cval(lo.e) is not None and cval(hi.e) is None and not e["inclusive"]:
+            # `lo..n` with symbolic n: a bounded index vector; e_for records the unwinding obligation
+            a = cval(lo.e)
+            cnt = z3.If(uge(hi.e, bv(a)), hi.e - bv(a), bv(0))
+            return VVec([VInt(a + i) for i in range(self.loop_bound)], cnt), env, pc
         a, b = cval(lo.e), cval(hi.e) + (1 if e["inclusive"] else 0)
         if b - a > 64:
             raise Unsupported("range longer than 64")
@@ -1388,6 +1407,20 @@ class Interp:
             v, env, pc = self.eval(x, env, pc)
             items.append(v)
         return VVec(items), env, pc
+
+    def e_repeat(self, e, env, pc):
+        """[elem; N] with a literal N: byte arrays become byte strings of fixed length"""
+        el, env, pc = self.eval(e["elem"], env, pc)
+        n, env, pc = self.eval(e["len"], env, pc)
+        k = cval(n.e)
+        if k is None or k > 64:
+            raise Unsupported("array repeat with non-constant or large length")
+        if isinstance(el, VChar):
+            return VStr(BStr([el.e] * k, bv(k))), env, pc
+        if isinstance(el, VInt) and cval(el.e) is not None and cval(el.e) < 256:
+            # untyped `[0; N]`: in the parsers under analysis these are byte buffers
+            return VStr(BStr([b8(cval(el.e))] * k, bv(k))), env, pc
+        return VVec([el] * k), env, pc
 
     def e_vec_repeat(self, e, env, pc):
         el, env, pc = self.eval(e["elem"], env, pc)
@@ -1886,6 +1919,8 @@ METHODS = {
     ("VRsplitHead", "next"): lambda I, s, a, pc, e: some(s.last),
     ("VCount", "count"): lambda I, s, a, pc, e: VInt(s.n),
     ("VStr", "len"): m_len_str,
+    ("VStr", "try_into"): lambda I, s, a, pc, e: ok(s),
+    ("VInt", "try_into"): lambda I, s, a, pc, e: ok(s),
     ("VStr", "as_mut_slice"): m_ident,
     ("VStr", "as_slice"): m_ident,
     ("VStr", "to_vec"): m_ident,
@@ -1957,6 +1992,7 @@ METHODS = {
     ("VVec", "clone"): m_ident,
     ("VVec", "step_by"): m_step_by,
     ("VIter", "step_by"): lambda I, it, a, pc, e: m_step_by(I, it.vec, a, pc, e),
+    ("VUnit", "clone"): m_ident,
     ("VInt", "clone"): m_ident,
     ("VInt", "into"): m_ident,
     ("VInt", "get"): m_ident,
